@@ -63,6 +63,20 @@ type cobs struct {
 	hadSession bool
 }
 
+const backPT = 110 // payload type of the back channel's format
+
+// backRec: one packet the server session received on a reader's back channel.
+type backRec struct {
+	seq uint16
+	ok  bool
+}
+
+type pubPause struct {
+	at    int
+	stamp int64
+	sent  int // relay over UDP: datagrams the publisher's sockets had sent when the PAUSE returned (its writer is stopped by then)
+}
+
 type mikeyEntry struct {
 	ssrc, roc uint32
 }
@@ -104,9 +118,14 @@ type reader struct {
 	closedCh   chan struct{}
 	ctl        []cobs
 	closeErr   string
-	pauseSeen  []int64        // stamps of the server's OnPause handler, one per PAUSE
-	sessionID  string         // from the Session header of the responses (library client)
-	keyMgmt    [][]mikeyEntry // SETUP responses, in order: the (SSRC, ROC) pairs of the MIKEY CS-ID map
+	pauseSeen  []int64            // stamps of the server's OnPause handler, one per PAUSE
+	backMedia  *description.Media // the client's view of the back channel media
+	backOut    []byte             // per back-channel write: 'a' / 'f' / 'e'
+	backRecs   []backRec          // what the server session's callback received
+	backSent   atomic.Int64       // UDP: back-channel datagrams the client's socket sent
+	refuseNext base.StatusCode    // (under harness.mu) answer the next PLAY / PAUSE of this reader with this status
+	sessionID  string             // from the Session header of the responses (library client)
+	keyMgmt    [][]mikeyEntry     // SETUP responses, in order: the (SSRC, ROC) pairs of the MIKEY CS-ID map
 
 	prevSent [][]uint64 // writer goroutine only
 
@@ -149,21 +168,27 @@ type harness struct {
 	pwid     []int // stage-2 write j carries the payload of publisher write pwid[j] (identity without relay)
 
 	// relay (second direction): publisher → server session → stream
-	pub       *gortsplib.Client
-	pubDesc   *description.Session
-	pubOut    []byte // per publisher write: 'a' accepted, 'f' queue full, 'e' other error
-	pubStamp  []int64
-	pubMedia  map[*description.Media]int
-	relayMu   sync.Mutex
-	relayRecs []rec  // what the server session's callback saw
-	relayArr  []aobs // UDP: datagrams the server's RTP socket read from the publisher
-	pkPub     []pktMeta
-	fpNoMedia map[[3]uint32]int
-	pubSent   atomic.Int64 // relay over UDP: RTP datagrams the publisher socket sent
-	rawPub    *rawPublisher
-	pubConns  []*pubPC // relay over UDP: the publisher's RTP sockets with fault injection (one per media)
-	pubSess   *gortsplib.ServerSession
-	pubClosed chan struct{}
+	pub         *gortsplib.Client
+	pubDesc     *description.Session
+	pubOut      []byte // per publisher write: 'a' accepted, 'f' queue full, 'e' other error
+	pubStamp    []int64
+	pubMedia    map[*description.Media]int
+	relayMu     sync.Mutex
+	relayRecs   []rec  // what the server session's callback saw
+	relayArr    []aobs // UDP: datagrams the server's RTP socket read from the publisher
+	pkPub       []pktMeta
+	fpNoMedia   map[[3]uint32]int
+	pubSent     atomic.Int64       // relay over UDP: RTP datagrams the publisher socket sent
+	backMedia   *description.Media // back channel of the stream (client → server), nil: none
+	backFormat  format.Format
+	backSSRC    uint32
+	rawPub      *rawPublisher
+	refusePub   base.StatusCode // (under mu) answer the publisher next RECORD / PAUSE with this status
+	nPubRefused int
+	pubPauses   []pubPause // refused PAUSEs of the publisher: before which write, and when
+	pubConns    []*pubPC   // relay over UDP: the publisher's RTP sockets with fault injection (one per media)
+	pubSess     *gortsplib.ServerSession
+	pubClosed   chan struct{}
 }
 
 func (h *harness) note(f string, a ...any) {
@@ -220,6 +245,9 @@ func (h *harness) OnAnnounce(_ *gortsplib.ServerHandlerOnAnnounceCtx) (*base.Res
 
 // OnRecord: the second direction - every packet the session receives is re-written to the stream.
 func (h *harness) OnRecord(ctx *gortsplib.ServerHandlerOnRecordCtx) (*base.Response, error) {
+	if code := h.refusal(ctx.Session); code != 0 {
+		return &base.Response{StatusCode: code}, nil
+	}
 	h.mu.Lock()
 	h.pubSess = ctx.Session
 	h.mu.Unlock()
@@ -234,12 +262,42 @@ func (h *harness) OnRecord(ctx *gortsplib.ServerHandlerOnRecordCtx) (*base.Respo
 	return &base.Response{StatusCode: base.StatusOK}, nil
 }
 
-func (h *harness) OnPlay(_ *gortsplib.ServerHandlerOnPlayCtx) (*base.Response, error) {
+// refusal: the status the next PLAY / PAUSE / RECORD of this peer is to be answered with (0: accept).
+func (h *harness) refusal(ss *gortsplib.ServerSession) base.StatusCode {
+	h.mu.Lock()
+	defer h.mu.Unlock()
+	if rd := h.sessRdr[ss]; rd != nil {
+		code := rd.refuseNext
+		rd.refuseNext = 0
+		return code
+	}
+	code := h.refusePub
+	h.refusePub = 0
+	return code
+}
+
+func (h *harness) OnPlay(ctx *gortsplib.ServerHandlerOnPlayCtx) (*base.Response, error) {
+	if code := h.refusal(ctx.Session); code != 0 {
+		return &base.Response{StatusCode: code}, nil
+	}
+	if h.backMedia != nil {
+		h.mu.Lock()
+		rd := h.sessRdr[ctx.Session]
+		h.mu.Unlock()
+		for _, m := range ctx.Session.Medias() {
+			if m == h.backMedia && rd != nil {
+				ctx.Session.OnPacketRTP(h.backMedia, h.backFormat, func(pkt *rtp.Packet) { rd.onBack(pkt) })
+			}
+		}
+	}
 	return &base.Response{StatusCode: base.StatusOK}, nil
 }
 
 // OnPause returns just before the session destroys its writer: the stamp tells where `ring.Close()` is.
 func (h *harness) OnPause(ctx *gortsplib.ServerHandlerOnPauseCtx) (*base.Response, error) {
+	if code := h.refusal(ctx.Session); code != 0 {
+		return &base.Response{StatusCode: code}, nil
+	}
 	h.mu.Lock()
 	rd := h.sessRdr[ctx.Session]
 	h.mu.Unlock()
@@ -292,6 +350,55 @@ func (h *harness) OnDecodeError(ctx *gortsplib.ServerHandlerOnDecodeErrorCtx) {
 
 func (h *harness) OnPacketsLost(_ *gortsplib.ServerHandlerOnPacketsLostCtx) {}
 
+// handler: the harness itself, or a view of it that lacks OnPause (and OnPlay): the server then answers
+// those requests 501 Not Implemented.
+func (h *harness) handler() gortsplib.ServerHandler {
+	switch {
+	case h.sc.NoPauseHandler && h.sc.NoPlayHandler:
+		return &handlerNoPausePlay{handlerCommon{h}}
+	case h.sc.NoPauseHandler:
+		return &handlerNoPause{handlerCommon{h}}
+	}
+	return h
+}
+
+type handlerCommon struct{ h *harness }
+
+func (x handlerCommon) OnDescribe(c *gortsplib.ServerHandlerOnDescribeCtx) (*base.Response, *gortsplib.ServerStream, error) {
+	return x.h.OnDescribe(c)
+}
+func (x handlerCommon) OnAnnounce(c *gortsplib.ServerHandlerOnAnnounceCtx) (*base.Response, error) {
+	return x.h.OnAnnounce(c)
+}
+func (x handlerCommon) OnSetup(c *gortsplib.ServerHandlerOnSetupCtx) (*base.Response, *gortsplib.ServerStream, error) {
+	return x.h.OnSetup(c)
+}
+func (x handlerCommon) OnRecord(c *gortsplib.ServerHandlerOnRecordCtx) (*base.Response, error) {
+	return x.h.OnRecord(c)
+}
+func (x handlerCommon) OnSessionClose(c *gortsplib.ServerHandlerOnSessionCloseCtx) {
+	x.h.OnSessionClose(c)
+}
+func (x handlerCommon) OnStreamWriteError(c *gortsplib.ServerHandlerOnStreamWriteErrorCtx) {
+	x.h.OnStreamWriteError(c)
+}
+func (x handlerCommon) OnDecodeError(c *gortsplib.ServerHandlerOnDecodeErrorCtx) {
+	x.h.OnDecodeError(c)
+}
+func (x handlerCommon) OnPacketsLost(c *gortsplib.ServerHandlerOnPacketsLostCtx) {
+	x.h.OnPacketsLost(c)
+}
+
+// handlerNoPause: everything but OnPause.
+type handlerNoPause struct{ handlerCommon }
+
+func (x *handlerNoPause) OnPlay(c *gortsplib.ServerHandlerOnPlayCtx) (*base.Response, error) {
+	return x.h.OnPlay(c)
+}
+
+// handlerNoPausePlay: neither OnPause nor OnPlay (a publish-only server).
+type handlerNoPausePlay struct{ handlerCommon }
+
 // ---------------------------------------------------------------------------------------------
 // set-up
 // ---------------------------------------------------------------------------------------------
@@ -319,7 +426,7 @@ func (h *harness) start() error {
 		h.formats = append(h.formats, fs)
 	}
 	s := &gortsplib.Server{
-		Handler:                  h,
+		Handler:                  h.handler(),
 		RTSPAddress:              "127.0.0.1:0",
 		WriteQueueSize:           sc.Cap,
 		MaxPacketSize:            sc.MaxPkt,
@@ -397,7 +504,17 @@ func (h *harness) start() error {
 		return err
 	}
 	h.srv = s
-	h.stream = &gortsplib.ServerStream{Server: s, Desc: &description.Session{Medias: h.medias}}
+	all := append([]*description.Media{}, h.medias...)
+	if sc.BackChannel {
+		bf := &format.Generic{PayloadTyp: backPT, RTPMa: "private/8000"}
+		if err = bf.Init(); err != nil {
+			return err
+		}
+		h.backFormat = bf
+		h.backMedia = &description.Media{Type: description.MediaTypeAudio, IsBackChannel: true, Formats: []format.Format{bf}}
+		all = append(all, h.backMedia)
+	}
+	h.stream = &gortsplib.ServerStream{Server: s, Desc: &description.Session{Medias: all}}
 	if err = h.stream.Initialize(); err != nil {
 		s.Close()
 		return err
@@ -412,6 +529,9 @@ func (h *harness) start() error {
 			h.ssrcMF[v] = [2]int{m, f}
 		}
 		h.ssrc = append(h.ssrc, row)
+	}
+	if h.backMedia != nil {
+		h.backSSRC = st.Medias[h.backMedia].Formats[h.backFormat].LocalSSRC
 	}
 	h.fp = map[fpKey][]int{}
 	h.fpNoMedia = map[[3]uint32]int{}
@@ -502,12 +622,15 @@ func (h *harness) identify(m int, fpt uint8, pkt *rtp.Packet) (int, string) {
 			w = fmt.Sprintf("payload type %d, written %d", pkt.PayloadType, p.pt)
 		case pkt.Marker != p.marker:
 			w = "marker differs"
-		case len(pkt.Payload) != p.size:
+		case len(pkt.Payload) < p.size:
 			w = fmt.Sprintf("payload length %d, written %d", len(pkt.Payload), p.size)
 		case !bytes.Equal(pkt.Payload, genPayload(h.sc.Seed, wid, p.size)):
 			w = "payload bytes differ"
-		case pkt.Version != 2 || pkt.Padding || pkt.Extension || len(pkt.CSRC) != 0:
-			w = "header flags differ"
+			if len(pkt.Payload) > p.size && bytes.Equal(pkt.Payload[:p.size], genPayload(h.sc.Seed, wid, p.size)) {
+				w = fmt.Sprintf("payload has %d extra bytes at its end: % x", len(pkt.Payload)-p.size, pkt.Payload[p.size:min(len(pkt.Payload), p.size+8)])
+			}
+		default:
+			w = hdrDiff(pkt, expectedPacket(h.sc, wid, p))
 		}
 		if w == "" {
 			return wid, ""
@@ -531,7 +654,7 @@ func (rd *reader) onPacket(medi *description.Media, forma format.Format, pkt *rt
 func (rd *reader) record(m int, fpt uint8, pkt *rtp.Packet) {
 	h := rd.h
 	r := rec{m: m, pt: fpt, hpt: pkt.PayloadType, seq: pkt.SequenceNumber, ts: pkt.Timestamp,
-		marker: pkt.Marker, ssrc: pkt.SSRC, dg: digest(pkt.Payload), stamp: h.clock.Add(1)}
+		marker: pkt.Marker, ssrc: pkt.SSRC, dg: pktDigest(pkt), stamp: h.clock.Add(1)}
 	r.wid, r.why = h.identify(m, r.pt, pkt)
 	rd.mu.Lock()
 	n := len(rd.recs)
@@ -615,8 +738,11 @@ func (rd *reader) connect1() error {
 		TLSConfig:             &tls.Config{InsecureSkipVerify: true},
 		DialContext:           dialer(h.ns, rd),
 		ListenPacket:          cliListenPacket(h.ns, rd),
-		OnPacketsLost:         func(uint64) {},
-		OnTransportSwitch:     func(err error) { h.note("reader %d transport switch: %v", rd.idx, err) },
+		RequestBackChannels:   rd.spec.Back,
+		// sender reports of the back channel would share the client's write queue
+		DisableRTCPSenderReports: true,
+		OnPacketsLost:            func(uint64) {},
+		OnTransportSwitch:        func(err error) { h.note("reader %d transport switch: %v", rd.idx, err) },
 		OnDecodeError: func(err error) {
 			rd.mu.Lock()
 			if len(rd.decodeErrs) < 5 {
@@ -678,7 +804,11 @@ func (rd *reader) connect1() error {
 	if err != nil {
 		return fmt.Errorf("describe: %w", err)
 	}
-	if len(desc.Medias) != len(h.medias) {
+	wantMedias := len(h.medias)
+	if rd.spec.Back {
+		wantMedias++
+	}
+	if len(desc.Medias) != wantMedias {
 		return fmt.Errorf("describe returned %d medias", len(desc.Medias))
 	}
 	rd.mediaIdx = map[*description.Media]int{}
@@ -690,8 +820,66 @@ func (rd *reader) connect1() error {
 			return fmt.Errorf("setup media %d: %w", m, err)
 		}
 	}
+	if rd.spec.Back {
+		rd.backMedia = desc.Medias[len(h.medias)]
+		if _, err = c.Setup(desc.BaseURL, rd.backMedia, 0, 0); err != nil {
+			return fmt.Errorf("setup back channel: %w", err)
+		}
+	}
 	c.OnPacketRTPAny(rd.onPacket)
 	return nil
+}
+
+// backPayload: the payload of the i-th back-channel packet of this reader.
+func (rd *reader) backPayload(i int) []byte {
+	return genPayload(rd.h.sc.Seed, 1000000+rd.idx*100000+i, 1+(i*37)%300)
+}
+
+// onBack runs in the server: the session's callback for the back channel.
+func (rd *reader) onBack(pkt *rtp.Packet) {
+	i := int(pkt.SequenceNumber) - 1000
+	ok := i >= 0 && pkt.PayloadType == backPT && bytes.Equal(pkt.Payload, rd.backPayload(i)) && pkt.Timestamp == uint32(i)*160
+	rd.mu.Lock()
+	rd.backRecs = append(rd.backRecs, backRec{seq: pkt.SequenceNumber, ok: ok})
+	rd.mu.Unlock()
+}
+
+// doBack: the reader writes a burst to its back channel, then waits until the burst has left (UDP) or
+// has arrived (reliable transports), so that a following PAUSE does not catch it in the client's queue.
+func (rd *reader) doBack() {
+	if rd.c == nil || rd.backMedia == nil {
+		return
+	}
+	for k := 0; k < 25; k++ {
+		i := len(rd.backOut)
+		pkt := &rtp.Packet{Header: rtp.Header{Version: 2, PayloadType: backPT, SequenceNumber: uint16(1000 + i), Timestamp: uint32(i) * 160,
+			Marker: i%3 == 0, SSRC: 99}, Payload: rd.backPayload(i)}
+		err := rd.c.WritePacketRTP(rd.backMedia, pkt)
+		var full liberrors.ErrClientWriteQueueFull
+		switch {
+		case err == nil:
+			rd.backOut = append(rd.backOut, 'a')
+		case errors.As(err, &full):
+			rd.backOut = append(rd.backOut, 'f')
+		default:
+			rd.backOut = append(rd.backOut, 'e')
+			rd.h.note("reader %d back channel write %d: %v", rd.idx, i, err)
+		}
+	}
+	want := 0
+	for _, o := range rd.backOut {
+		if o == 'a' {
+			want++
+		}
+	}
+	for start := time.Now(); time.Since(start) < 2*time.Second; time.Sleep(300 * time.Microsecond) {
+		rd.mu.Lock()
+		got := len(rd.backRecs)
+		rd.mu.Unlock()
+		if got >= want || (rd.udp && int(rd.backSent.Load()) >= want) {
+			break
+		}
+	}
 }
 
 func (rd *reader) doPlay() {
@@ -731,6 +919,46 @@ func (rd *reader) doPause() {
 	if ob.err == nil {
 		rd.state = "paused"
 	}
+	rd.mu.Lock()
+	rd.ctl = append(rd.ctl, ob)
+	rd.mu.Unlock()
+}
+
+// doRefused: a PLAY or PAUSE that the server refuses (a 4xx / 5xx from the handler, or 501 because the
+// handler has no such method): the request must fail and must change nothing - the flow goes on.
+func (rd *reader) doRefused(op string) {
+	h := rd.h
+	if rd.raw != nil {
+		return
+	}
+	ob := cobs{op: "refused", cs: h.clock.Add(1)}
+	if !rd.connected() {
+		if ob.err = rd.connect(); ob.err != nil {
+			rd.mu.Lock()
+			rd.ctl = append(rd.ctl, ob)
+			rd.mu.Unlock()
+			return
+		}
+		ob.first = true
+	}
+	codes := []base.StatusCode{base.StatusBadRequest, base.StatusNotFound, base.StatusInternalServerError, base.StatusServiceUnavailable}
+	code := codes[(rd.idx+len(rd.ctl))%len(codes)]
+	if !(op == "pause" && h.sc.NoPauseHandler) {
+		h.mu.Lock()
+		rd.refuseNext = code
+		h.mu.Unlock()
+	}
+	var err error
+	if op == "pause" {
+		_, err = rd.c.Pause()
+	} else {
+		_, err = rd.c.Play(nil)
+	}
+	if err == nil {
+		ob.err = fmt.Errorf("%s was to be refused but succeeded", op)
+	}
+	ob.cd = h.clock.Add(1)
+	ob.k = rd.count()
 	rd.mu.Lock()
 	rd.ctl = append(rd.ctl, ob)
 	rd.mu.Unlock()
@@ -808,6 +1036,18 @@ func (rd *reader) exec(st Step) {
 	case "replay":
 		if rd.state == "playing" {
 			rd.doReplay()
+		}
+	case "pause-refused":
+		if rd.state == "playing" {
+			rd.doRefused("pause")
+		}
+	case "back":
+		if rd.state == "playing" {
+			rd.doBack()
+		}
+	case "play-refused":
+		if rd.state == "" || rd.state == "paused" {
+			rd.doRefused("play")
 		}
 	case "leave":
 		if rd.state != "gone" {
@@ -919,10 +1159,7 @@ func (h *harness) writeAll() {
 	for wid := 0; wid < sc.N; wid++ {
 		h.schedule(wid, false)
 		p := h.pk[wid]
-		pkt := &rtp.Packet{
-			Header:  rtp.Header{Version: 2, PayloadType: p.pt, SequenceNumber: p.seq, Timestamp: p.ts, Marker: p.marker, SSRC: p.ssrcIn},
-			Payload: genPayload(sc.Seed, wid, p.size),
-		}
+		pkt := buildPacket(sc, wid, p)
 		h.streamWrite(wid, p, pkt)
 		h.progress.Store(int64(wid + 1))
 		h.pace(wid)
@@ -1003,8 +1240,35 @@ func (h *harness) startPublisher() error {
 	} else {
 		c.Protocol = new(gortsplib.ProtocolTCP)
 	}
-	if err := c.StartRecording(fmt.Sprintf("%s://%s/pub", scheme, h.addr), h.pubDesc); err != nil {
+	u, err := base.ParseURL(fmt.Sprintf("%s://%s/pub", scheme, h.addr))
+	if err != nil {
+		return err
+	}
+	c.Scheme, c.Host = u.Scheme, u.Host
+	if err = c.Start(); err != nil {
 		return fmt.Errorf("publisher: %w", err)
+	}
+	if _, err = c.Announce(u, h.pubDesc); err != nil {
+		c.Close()
+		return fmt.Errorf("publisher announce: %w", err)
+	}
+	if err = c.SetupAll(u, h.pubDesc.Medias); err != nil {
+		c.Close()
+		return fmt.Errorf("publisher setup: %w", err)
+	}
+	for i := 0; i < sc.PubRecordRefused; i++ {
+		// a refused RECORD must leave the client able to record
+		h.mu.Lock()
+		h.refusePub = []base.StatusCode{base.StatusServiceUnavailable, base.StatusBadRequest}[i%2]
+		h.mu.Unlock()
+		if _, err = c.Record(); err == nil {
+			c.Close()
+			return fmt.Errorf("publisher: RECORD was to be refused but succeeded")
+		}
+	}
+	if _, err = c.Record(); err != nil {
+		c.Close()
+		return fmt.Errorf("publisher record: %w", err)
 	}
 	h.pub = c
 	return nil
@@ -1013,7 +1277,7 @@ func (h *harness) startPublisher() error {
 // onRelay runs in the server: the session's OnPacketRTP callback.
 func (h *harness) onRelay(m int, fpt uint8, pkt *rtp.Packet) {
 	r := rec{m: m, pt: fpt, hpt: pkt.PayloadType, seq: pkt.SequenceNumber, ts: pkt.Timestamp,
-		marker: pkt.Marker, ssrc: pkt.SSRC, dg: digest(pkt.Payload), stamp: h.clock.Add(1)}
+		marker: pkt.Marker, ssrc: pkt.SSRC, dg: pktDigest(pkt), stamp: h.clock.Add(1)}
 	r.wid, r.why = h.identify(m, fpt, pkt)
 	h.relayMu.Lock()
 	h.relayRecs = append(h.relayRecs, r)
@@ -1050,12 +1314,27 @@ func (h *harness) publishAll() {
 	h.pubStamp = make([]int64, sc.N)
 	for wid := 0; wid < sc.N; wid++ {
 		h.schedule(wid, false)
+		for _, st := range sc.PubSteps {
+			if st.At == wid && st.Op == "pause-refused" && h.pub != nil {
+				// a PAUSE the server refuses: the recording goes on, the client's queue must be running again
+				if !sc.NoPauseHandler {
+					h.mu.Lock()
+					h.refusePub = base.StatusInternalServerError
+					h.mu.Unlock()
+				}
+				stamp := h.clock.Add(1)
+				if _, perr := h.pub.Pause(); perr == nil {
+					h.note("publisher: PAUSE at write %d was to be refused but succeeded", wid)
+				} else {
+					h.nPubRefused++
+					// (Client.Pause destroys the write queue before it asks: what was still queued is forfeited)
+					h.pubPauses = append(h.pubPauses, pubPause{at: wid, stamp: stamp, sent: int(h.pubSent.Load())})
+				}
+			}
+		}
 		p := h.pk[wid]
 		h.pubStamp[wid] = h.clock.Add(1)
-		pkt := &rtp.Packet{
-			Header:  rtp.Header{Version: 2, PayloadType: p.pt, SequenceNumber: p.seq, Timestamp: p.ts, Marker: p.marker, SSRC: p.ssrcIn},
-			Payload: genPayload(sc.Seed, wid, p.size),
-		}
+		pkt := buildPacket(sc, wid, p)
 		var err error
 		if h.rawPub != nil {
 			pkt.SSRC = 0x51000000 + uint32(p.media)<<8 + uint32(p.fi) // one SSRC per format, as a real sender has
@@ -1088,6 +1367,7 @@ func (h *harness) publishAll() {
 	}
 	start := time.Now()
 	last, lastN := time.Now(), -1
+	lastSent := -1
 	for {
 		n, settled := h.relayCount()
 		if n != lastN {
@@ -1097,12 +1377,15 @@ func (h *harness) publishAll() {
 			break
 		}
 		quiet := 1500 * time.Millisecond
+		if len(h.pubPauses) > 0 {
+			quiet = 400 * time.Millisecond // (a refused PAUSE dropped what was queued: `want` is not reached)
+		}
 		if sc.Relay == "udp" {
 			// nothing may be in flight when the publisher is closed: its queue must be empty (everything
 			// accepted was sent) and the server must have read what was sent (or stay quiet for a while)
 			quiet = 300 * time.Millisecond
-			if int(h.pubSent.Load()) < want {
-				last = time.Now()
+			if sent := int(h.pubSent.Load()); sent != lastSent {
+				lastSent, last = sent, time.Now() // the publisher's queue is still draining
 			} else {
 				h.flushPub()
 			}
